@@ -754,6 +754,89 @@ pub fn run(opts: &Options, prop: &str) -> Report {
             }
         }
     }
+    // ---- first-run initialisation (C08): a crash in front of every store write of the very
+    // first start, then a normal start and a complete sync
+    if prop == "C08" && opts.replay.is_none() {
+        let mut hrng = Rng::new(opts.seed ^ 0x1417);
+        let world = build_world(&mut hrng, 30);
+        let mut total_writes = 0u64;
+        let mut k = 1u64;
+        loop {
+            rep.evaluations += 1;
+            let mut node = Node::new_unopened(&world.chain.consensus, 5, 2000, 1);
+            let counter = std::rc::Rc::new(std::cell::Cell::new(0u64));
+            {
+                let c = counter.clone();
+                crate::verif_hooks::set_before_write(Some(Box::new(move |_site| {
+                    c.set(c.get() + 1);
+                    if c.get() == k {
+                        panic!("simulated crash at store write {} of the first start", c.get());
+                    }
+                })));
+            }
+            let first = catch(|| node.open());
+            crate::verif_hooks::set_before_write(None);
+            if first.is_ok() {
+                total_writes = counter.get();
+                break; // k is beyond the last write of the initialisation
+            }
+            node.inner = None;
+            rep.count_class("crash:first-start");
+            let replay = vec![format!("init-crash {}", k), format!("# crash in front of store write {} of the first start", k)];
+            match catch(|| node.open()) {
+                Err(e) => {
+                    rep.violate(
+                        "C08|store-unusable-after-crash|first-start",
+                        "after a crash during the first start the client aborts on every further start",
+                        vec![replay[0].clone(), format!("{}; second start: {}", replay[1], e.chars().take(200).collect::<String>())],
+                    );
+                }
+                Ok(()) => {
+                    // usable: registers scripts and syncs to the ground truth
+                    let mut now = world.chain.tip().timestamp() + 5000;
+                    set_now(now);
+                    let r = catch(|| {
+                        node.connect(PeerIndex::new(1));
+                        let statuses: Vec<ScriptStatus> = ALL_IDS
+                            .iter()
+                            .map(|id| {
+                                let (sc, ty) = reg_of(*id);
+                                ScriptStatus { script: sc.into(), script_type: ty, block_number: 0.into() }
+                            })
+                            .collect();
+                        node.filter_rpc().set_scripts(statuses, Some(SetScriptsCommand::All)).expect("set_scripts");
+                        converge(&mut node, &world, &mut now)
+                    });
+                    match r {
+                        Err(e) => rep.violate(
+                            "C08|abort-after-crash|first-start",
+                            "after a crash during the first start the client aborts while syncing",
+                            vec![replay[0].clone(), format!("{}; {}", replay[1], e.chars().take(200).collect::<String>())],
+                        ),
+                        Ok(got) => {
+                            let reg: BTreeMap<u64, u64> = ALL_IDS.iter().map(|i| (*i, 0)).collect();
+                            let expect = expected_index(&world, &reg, &reg);
+                            for (sid, exp) in &expect {
+                                let g = got.get(sid).cloned().unwrap_or_default();
+                                if exp.difference(&g).next().is_some() {
+                                    rep.violate(
+                                        "C08|activity-lost|first-start",
+                                        "after a crash during the first start a registered script misses activity",
+                                        vec![replay[0].clone(), format!("{}; script {}", replay[1], sid)],
+                                    );
+                                }
+                            }
+                        }
+                    }
+                }
+            }
+            k += 1;
+            if k > 40 {
+                break;
+            }
+        }
+        rep.notes.push(format!("first start: {} store writes, a crash injected in front of each", total_writes));
+    }
     ckb_systemtime::faketime().disable_faketime();
     let answers = run_model(opts, "sync", &all_lines);
     let mut bad = BTreeSet::new();
